@@ -398,13 +398,13 @@ def gen_cases(seed, tier):
         descs.append({'kind': 'tolerant', 's': s})
     for sp in FIXED_BUILT:
         descs.append({'kind': 'built', 'spec': sp})
-    for _ in range(12000 if big else 1200):
+    for _ in range(40000 if big else 4000):
         descs.append({'kind': 'strict', 's': gen_doc(rnd, rnd.choice([1, 2, 2, 3, 3, 4, 5, 6]))})
-    for _ in range(12000 if big else 1200):
+    for _ in range(40000 if big else 4000):
         descs.append({'kind': 'tolerant', 's': gen_soup(rnd)})
-    for _ in range(2000 if big else 200):                       # valid documents through the tolerant parser
+    for _ in range(6000 if big else 600):                       # valid documents through the tolerant parser
         descs.append({'kind': 'tolerant', 's': gen_doc(rnd, rnd.choice([1, 2, 3]))})
-    for _ in range(8000 if big else 800):
+    for _ in range(25000 if big else 2500):
         bad = 0.15 if rnd.random() < 0.2 else 0.0
         descs.append({'kind': 'built', 'spec': rnd_spec(rnd, rnd.choice([1, 2, 3, 4, 5]), [0], bad)})
     # trailing backslashes make the tolerant parser hang (F1, a C06/C11 matter): not a tree
